@@ -1118,7 +1118,7 @@ func «.fn»(args []string) {
 // nested scope with the same name. Every one of them has its own obfuscated name.
 func featSameNames(g *Gen) {
 	p := g.lib()
-	n := g.names(p, "A=type,E", "B=type,E", "Shared=field,E", "Other=field,E", "OnlyB=field,E", "MkA=func,E", "MkB=func,E", "Sink=var,E", "shared2=field,u")
+	n := g.names(p, "A=type,E", "B=type,E", "C=type,E", "Shared=field,E", "Other=field,E", "OnlyB=field,E", "MkA=func,E", "MkB=func,E", "Sink=var,E", "shared2=field,u")
 	f := g.newFile(p, "samenames")
 	f.add(`
 type «.A» struct {
@@ -1139,12 +1139,15 @@ var «.Sink» any = []any{«.A»{}, «.B»{}}
 // a package-level function named like the fields
 //
 //go:noinline
-func «.Shared»(v int) int { return v + 1 }
+func «.Shared»(v int) int { return v + 1 + «.C»{«.Other»: v}.«.shared2»() }
 
-// a method named like the fields
+type «.C» struct{ «.Other» int }
+
+// an unexported method named like the unexported fields (an exported one would legitimately
+// keep its name, and with it the field marker, in the binary)
 //
 //go:noinline
-func (b «.B») «.Other»2() int { return b.«.Other» * 2 }
+func (c «.C») «.shared2»() int { return c.«.Other» * 2 }
 
 //go:noinline
 func «.MkA»(v int) «.A» { return «.A»{«.Shared»: «.Shared»(v), «.Other»: "a", «.shared2»: v} }
@@ -1158,7 +1161,7 @@ func «.MkB»(v int) «.B» { return «.B»{«.Shared»: "b", «.Other»: v, «.
 	mf.add(`
 func «.fn»(args []string) {
 	a, b := «.q»«.MkA»(len(args)), «.q»«.MkB»(len(args)+2)
-	fmt.Println("samenames", a.«.Shared», a.«.Other», b.«.Shared», b.«.Other», b.«.OnlyB», b.«.Other»2(), «.q»«.Shared»(5))
+	fmt.Println("samenames", a.«.Shared», a.«.Other», b.«.Shared», b.«.Other», b.«.OnlyB», «.q»«.Shared»(5))
 }
 `, d(n, map[string]string{"fn": fn, "q": q}))
 }
